@@ -1,10 +1,17 @@
 import MpfVerif.Lemmas.EventBus
+import MpfVerif.Gen.EventFacts
 /-!
 # C01 — Event dispatch is complete, priority-ordered and serial
 
 Property theorems only (model: `Model/EventBus.lean`, helper lemmas: `Lemmas/EventBus.lean`).
 `progs : Nat → Prog` (the behaviour of every handler and callback) is universally quantified everywhere, and the
 queue theorems hold for an arbitrary dispatch function `proc` and callback runner `cbrun`.
+
+Tie to the source: `Gen/EventFacts.lean` is regenerated from `mpf/core/events.py` on every check (sort key and direction
+of `add_handler`, copy-iteration of `_run_handlers`, the deque ends of `_post` / `_process_event` /
+`process_event_queue`).  The model driver runs with those facts; `source_facts_canonical` proves they are the facts the
+theorems below are stated for (hypotheses `… .facts = Facts.canon`), `source_loop_is_model_loop` /
+`source_registry_is_model_registry` that the functions the driver runs are then the functions of the theorems.
 -/
 namespace MpfVerif.C01
 open MpfVerif.EventBus
@@ -40,11 +47,12 @@ theorem replace_lands (r : Reg) (ev : Nat) (h : Handler) (hs : RegSorted r) :
     simp only [replaceHandler, regGet_regSet]
     rw [if_neg (fun hh => hne hh.symm)]
 
-/-- `remove_handler(method)` removes exactly the entries of that callback under every event, `remove_handler_by_event`
+/-- (`fn` = equality class of the callback object: all bound methods of one callback share it, a `functools.partial`
+has its own.)  `remove_handler(method)` removes exactly the entries of that callback under every event, `remove_handler_by_event`
 exactly those under the one event; everything else keeps its place. -/
 theorem remove_by_callback (r : Reg) (pid ev : Nat) :
-    regGet (removeFn r pid) ev = (regGet r ev).filter (fun x => x.pid != pid) ∧
-    regGet (removeEvFn r ev pid) ev = (regGet r ev).filter (fun x => x.pid != pid) ∧
+    regGet (removeFn r pid) ev = (regGet r ev).filter (fun x => x.fn != pid) ∧
+    regGet (removeEvFn r ev pid) ev = (regGet r ev).filter (fun x => x.fn != pid) ∧
     ∀ ev', ev' ≠ ev → regGet (removeEvFn r ev pid) ev' = regGet r ev' := by
   refine ⟨regGet_removeFn r pid ev, by simp [removeEvFn, regGet_regSet], ?_⟩
   intro ev' hne
@@ -115,53 +123,117 @@ theorem loop_ends_drained {S Ev : Type} (proc : S → Ev → S × List Ev) (cbru
     st.cur = [] ∧ st.inner = [] ∧ st.queue = [] ∧ cbrun st.s = none :=
   step_none_drained proc cbrun _ (iter_refines proc cbrun n ⟨s, queue, [], []⟩ (by simp [Loop.Inv])).1 hn
 
-/-- Exactly-once bookkeeping of callbacks, for all handler programs: dispatching an event runs no callback and queues
-its own callback exactly once (none if it has none) ... -/
-theorem callback_registered_once (progs : Nat → Prog) (c : Core) (e : Posted) :
+/-- Exactly-once bookkeeping of callbacks, for all handler programs: dispatching an event runs no callback and — when
+no handler raised — queues its own callback exactly once (none if it has none); when a handler raised, the callback
+is NOT queued (the code lets the exception leave `_process_event`) ... -/
+theorem callback_registered_once (progs : Nat → Prog) (c : Core) (e : Posted) (hf : c.facts = Facts.canon) :
     cbSns (processEvent progs c e).1.log = cbSns c.log ∧
-    match e.cb with
-    | none => (processEvent progs c e).1.cbq = c.cbq
-    | some cb => ∃ kw, (processEvent progs c e).1.cbq = c.cbq ++ [(cb, e.sn, kw)] :=
-  processEvent_cbq progs c e
+    (if (processEvent progs c e).1.raised then (processEvent progs c e).1.cbq = c.cbq else
+      match e.cb with
+      | none => (processEvent progs c e).1.cbq = c.cbq
+      | some cb => ∃ kw, (processEvent progs c e).1.cbq = c.cbq ++ [(cb, e.sn, kw)]) :=
+  processEvent_cbq progs c e hf
 
 /-- ... and a callback step runs the LAST queued entry, removes exactly that entry and logs it once; together with
 `callback_after_descendants` (it runs only with an empty agenda) an entry can never run twice. -/
-theorem callback_at_most_once (progs : Nat → Prog) (c c' : Core) (posted : List Posted)
+theorem callback_at_most_once (progs : Nat → Prog) (c c' : Core) (posted : List Posted) (hf : c.facts = Facts.canon)
     (h : cbRun progs c = some (c', posted)) :
     ∃ pid sn kw, c.cbq = c'.cbq ++ [(pid, sn, kw)] ∧ c'.log = c.log ++ [Obs.cb pid sn kw] :=
-  cbRun_pops progs c c' posted h
+  cbRun_pops progs c c' posted hf h
 
-/-- One dispatch of a plain event calls exactly the handlers of the snapshot taken when the dispatch begins whose
-condition holds on the merged kwargs, each once, in list order (= descending priority by `reg_sorted`) — whatever the
-handlers do to the registry meanwhile — and the posted kwargs are not changed. -/
-theorem dispatch_set (progs : Nat → Prog) (c : Core) (e : Posted) (hty : e.ty = .plain) (hcb : e.cb = none) :
-    (processEvent progs c e).1.log = c.log ++ expectedCalls e.ev e.sn e.kw (regGet c.reg e.ev) := by
-  unfold processEvent
-  rw [hty, hcb]
-  exact (runHandlers_plain_log progs e.ev e.sn (regGet c.reg e.ev) c e.kw .none).1
+/-- One dispatch (plain, boolean or relay; with or without blocking facilities) in which no handler raises calls exactly
+the handlers of the snapshot taken when the dispatch begins that are not blocked by a `_min_priority` returned earlier in
+this dispatch and whose condition holds on the merged kwargs, each once, in list order (= descending priority by
+`reg_sorted`), boolean events up to the first `False`, relay events each on the fold so far — whatever the handlers do
+to the registry meanwhile (a peer removed or replaced before its turn is still called from the snapshot, one added
+meanwhile is not, nobody is skipped or called twice). -/
+theorem dispatch_set (progs : Nat → Prog) (c : Core) (e : Posted) (hr : (processEvent progs c e).1.raised = false) :
+    (processEvent progs c e).1.log = c.log ++ dispCalls progs e.ev e.sn e.ty (regGet c.reg e.ev) e.kw := by
+  obtain ⟨n, h1, h2⟩ := processEvent_log progs c e
+  rw [h1, List.take_of_length_le (h2 hr)]
 
-/-- The same for boolean events (calls stop behind the first `False`) and relay events (each handler sees the fold so
-far): the calls of one dispatch are a function of the snapshot taken when the dispatch begins and of the handlers'
-return values only.  In particular — this is what the code does — a handler that `replace_handler`s / removes itself,
-an already served peer or a peer still waiting, or adds one, changes nothing about the current dispatch: a peer removed
-before its turn is still called from the snapshot, a peer added meanwhile is not, and nobody is skipped or called twice. -/
-theorem dispatch_set_boolean (progs : Nat → Prog) (c : Core) (e : Posted) (hty : e.ty = .boolean) :
-    (processEvent progs c e).1.log.filter (fun o => match o with | .call .. => true | .cb .. => false) =
-      (c.log ++ boolCalls progs e.ev e.sn e.kw (regGet c.reg e.ev)).filter
-        (fun o => match o with | .call .. => true | .cb .. => false) := by
-  unfold processEvent
-  rw [hty]
-  have h := (runHandlers_boolean progs e.ev e.sn (regGet c.reg e.ev) c e.kw .none).1
-  cases e.cb <;> simp only [h]
+/-- ... and when a handler raises, what has been delivered is a prefix of that list: every handler in front of the
+raising one exactly once and in order, nobody behind it (`EventHandlerException` ends `_run_handlers`). -/
+theorem dispatch_prefix_on_exception (progs : Nat → Prog) (c : Core) (e : Posted) :
+    ∃ n, (processEvent progs c e).1.log = c.log ++ (dispCalls progs e.ev e.sn e.ty (regGet c.reg e.ev) e.kw).take n := by
+  obtain ⟨n, h1, _⟩ := processEvent_log progs c e
+  exact ⟨n, h1⟩
 
-theorem dispatch_set_relay (progs : Nat → Prog) (c : Core) (e : Posted) (hty : e.ty = .relay) :
-    (processEvent progs c e).1.log.filter (fun o => match o with | .call .. => true | .cb .. => false) =
-      (c.log ++ relayCalls progs e.ev e.sn (regGet c.reg e.ev) e.kw).filter
-        (fun o => match o with | .call .. => true | .cb .. => false) := by
-  unfold processEvent
-  rw [hty]
-  have h := (runHandlers_relay progs e.ev e.sn (regGet c.reg e.ev) c e.kw .none).1
-  cases e.cb <;> simp only [h]
+/-- `_min_priority` never suppresses a handler that has no blocking facility, and a handler with a facility is left out
+only when the limit of `all` or the limit of its own facility, as stored in the event's kwargs, is above its priority. -/
+theorem blocking_sound (kw : Kw) (h : Handler) :
+    (h.fac = none → blocked kw h = false) ∧
+    (blocked kw h = true → ∃ f mp, h.fac = some f ∧ kwGet kw minPrio = some (.dict mp) ∧
+      ((∃ a, dGet mp 0 = some a ∧ a > h.prio) ∨ (∃ v, dGet mp f = some v ∧ v > h.prio))) := by
+  constructor
+  · intro hn; simp [blocked, hn]
+  · intro hb
+    unfold blocked at hb
+    split at hb
+    · rename_i f mp hfac hkw
+      refine ⟨f, mp, hfac, hkw, ?_⟩
+      simp only [Bool.or_eq_true] at hb
+      rcases hb with hb | hb
+      · left
+        split at hb
+        · rename_i a ha; exact ⟨a, ha, by simpa using hb⟩
+        · cases hb
+      · right
+        split at hb
+        · rename_i v hv; exact ⟨v, hv, by simpa using hb⟩
+        · cases hb
+    · cases hb
+
+/-- With the event monitor on, `_post` has no fast path: every post is queued (also one without handler and callback)
+and reported to the monitor exactly once, under its own serial, with the posted kwargs. -/
+theorem monitor_reports_every_post (c : Core) (ev : Nat) (ty : Ty) (cb : Option Nat) (kw : Kw) (hm : c.mon = true) :
+    (runAct c (.post ev ty cb kw)).2 = [⟨ev, ty, cb, kw, c.nextSn⟩] ∧
+    (runAct c (.post ev ty cb kw)).1.mlog = c.mlog ++ [(c.log.length, SObs.mon ev c.nextSn kw)] := by
+  simp [runAct, hm]
+
+/-- A future of `wait_for_event` / `wait_for_any_event` is resolved at most once, whatever programs run: no future is
+reported twice in the side log (a second `set_result` raises instead). -/
+theorem future_resolves_once (c : Core) (acts : List Act) (h : FutInv c) : FutInv (runActs c acts).1 :=
+  runActs_futInv c acts h
+
+/-- An exception ends the invocation of `process_event_queue`: when the dispatch of the current event `e` raises, the
+events still waiting in `next_queue` (`rest`) and in `inner_queue` are dropped (they are locals of the invocation),
+`event_queue` keeps exactly what was posted during the interrupted dispatch, and `callback_queue` is as it was before the
+dispatch — the callback of `e` is not queued.  (This is what the code does; MPF treats an exception in a handler as
+fatal and shuts down.) -/
+theorem exception_ends_invocation (progs : Nat → Prog) (b : Bus) (e : Posted) (rest : List Posted)
+    (hc : b.cur = e :: rest) (hf : b.s.facts = Facts.canon) (hr : (processEvent progs b.s e).1.raised = true) :
+    ∃ s', Bus.stepX progs b = some (⟨s', b.queue ++ (processEvent progs b.s e).2, [], []⟩, true) ∧
+      s'.cbq = b.s.cbq ∧ s'.raised = false ∧ s'.reg = (processEvent progs b.s e).1.reg ∧
+      s'.log = (processEvent progs b.s e).1.log := by
+  have hcb := (processEvent_cbq progs b.s e hf).2
+  rw [hr] at hcb
+  simp only [if_true] at hcb
+  refine ⟨{ (processEvent progs b.s e).1 with raised := false, mlog := (processEvent progs b.s e).1.mlog ++
+      [((processEvent progs b.s e).1.log.length, SObs.exc)] }, ?_, ?_⟩
+  · simp only [Bus.stepX, hc, hf, Facts.canon, popAt, hr, if_true, enq_right]
+  · exact ⟨hcb, rfl, rfl, rfl⟩
+
+/-! ### the facts of the source are the facts of the model -/
+
+/-- What the translator read from `mpf/core/events.py` (regenerated on every check) is what all theorems here assume:
+`add_handler` appends and sorts by priority, descending; `_run_handlers` iterates a copy of the list; `_post` appends to
+the right of `event_queue`; `process_event_queue` pops `next_queue` and `inner_queue` on the left, pushes `inner_queue`
+on the left and pops `callback_queue` on the right; `_process_event` appends callbacks on the right. -/
+theorem source_facts_canonical : Gen.EventFacts.sourceFacts = Facts.canon := by decide
+
+/-- hence one iteration of the loop the driver runs (deque ends from the source) is the iteration the refinement
+theorems are about -/
+theorem source_loop_is_model_loop {S Ev : Type} (proc : S → Ev → S × List Ev) (cbrun : S → Option (S × List Ev))
+    (st : Loop S Ev) : Loop.stepF Gen.EventFacts.sourceFacts proc cbrun st = Loop.step proc cbrun st := by
+  rw [source_facts_canonical]; exact Loop.stepF_canon proc cbrun st
+
+/-- ... and the registration the driver runs (sort facts from the source) is the one `reg_sorted` / `reg_stable` /
+`replace_lands` are about -/
+theorem source_registry_is_model_registry (r : Reg) (ev : Nat) (h : Handler) :
+    addHandlerF Gen.EventFacts.sourceFacts r ev h = addHandler r ev h ∧
+    replaceHandlerF Gen.EventFacts.sourceFacts r ev h = replaceHandler r ev h := by
+  rw [source_facts_canonical]; exact ⟨rfl, rfl⟩
 
 /-- merged kwargs = posted ⊕ registered, the handler's value wins -/
 theorem merge_handler_wins (posted hkw : Kw) (k : Nat) (hu : (hkw.map Prod.fst).Nodup) :
@@ -169,20 +241,21 @@ theorem merge_handler_wins (posted hkw : Kw) (k : Nat) (hu : (hkw.map Prod.fst).
   kwGet_kwUpdate posted hkw k hu
 
 /-- the handler lists stay sorted through everything handlers, callbacks and top-level code do -/
-theorem reg_sorted_preserved (c : Core) (acts : List Act) (h : RegSorted c.reg) : RegSorted (runActs c acts).1.reg :=
-  runActs_reg_sorted c acts h
+theorem reg_sorted_preserved (c : Core) (acts : List Act) (hf : c.facts = Facts.canon) (h : RegSorted c.reg) :
+    RegSorted (runActs c acts).1.reg :=
+  runActs_reg_sorted c acts hf h
 
 /-! ### non-vacuity: a 3-level posting tree, equal priorities, a handler removing a later one and adding a new one -/
 
 def exProgs : Nat → Prog
-  | 1 => ⟨[.post 2 .plain (some 9) [], .removeKey 1 12, .add 1 ⟨14, 5, [], none, 0⟩, .post 3 .plain (some 8) []], .none⟩
+  | 1 => ⟨[.post 2 .plain (some 9) [], .removeKey 1 12, .add 1 ⟨14, 5, [], none, 0, 0, none⟩, .post 3 .plain (some 8) []], .none⟩
   | 2 => ⟨[.post 4 .plain (some 7) [(1, .int 1)]], .none⟩
   | 8 => ⟨[.post 5 .plain none []], .none⟩
   | _ => ⟨[], .none⟩
 
 def exBus : Bus :=
-  (Bus.top { s := {} } [.add 1 ⟨11, 0, [], none, 1⟩, .add 1 ⟨12, 0, [(1, .int 7)], none, 0⟩, .add 2 ⟨13, 0, [], none, 2⟩,
-    .add 3 ⟨15, 0, [], none, 0⟩, .add 4 ⟨16, 0, [], some (1, 1), 0⟩, .add 5 ⟨17, 0, [], none, 0⟩,
+  (Bus.top { s := {} } [.add 1 ⟨11, 0, [], none, 1, 1, none⟩, .add 1 ⟨12, 0, [(1, .int 7)], none, 0, 0, none⟩, .add 2 ⟨13, 0, [], none, 2, 2, none⟩,
+    .add 3 ⟨15, 0, [], none, 0, 0, none⟩, .add 4 ⟨16, 0, [], some (1, 1), 0, 0, none⟩, .add 5 ⟨17, 0, [], none, 0, 0, none⟩,
     .post 1 .plain (some 9) [(1, .int 1)], .post 5 .plain (some 7) []])
 
 /-- a(1) posts b(2), c(3); b posts d(4); e(5) was waiting: a b d c e, then callbacks last-first, the callback of c posts e -/
@@ -193,13 +266,31 @@ example : ((Bus.drain exProgs 100 exBus).map (fun b => b.s.log.map showObs)) =
 /-- the `replace_handler` idiom during the handler's own dispatch (self, an already served peer, a waiting peer; and
 `remove_handler(method)` of a waiting peer): nobody is skipped in the running dispatch; the next post sees the new order -/
 def exProgs2 : Nat → Prog
-  | 1 => ⟨[.replace 1 ⟨21, 30, [], none, 1⟩], .none⟩
-  | 2 => ⟨[.replace 1 ⟨22, 5, [], none, 3⟩, .removeFn 4], .none⟩
+  | 1 => ⟨[.replace 1 ⟨21, 30, [], none, 1, 1, none⟩], .none⟩
+  | 2 => ⟨[.replace 1 ⟨22, 5, [], none, 3, 3, none⟩, .removeFn 4], .none⟩
   | _ => ⟨[], .none⟩
 
-example : ((Bus.drain exProgs2 100 (Bus.top { s := {} } [.add 1 ⟨11, 30, [], none, 1⟩, .add 1 ⟨12, 20, [], none, 2⟩,
-      .add 1 ⟨13, 10, [], none, 3⟩, .add 1 ⟨14, 10, [(1, .int 1)], none, 4⟩, .post 1 .plain none [], .post 1 .boolean none []])).map
+example : ((Bus.drain exProgs2 100 (Bus.top { s := {} } [.add 1 ⟨11, 30, [], none, 1, 1, none⟩, .add 1 ⟨12, 20, [], none, 2, 2, none⟩,
+      .add 1 ⟨13, 10, [], none, 3, 3, none⟩, .add 1 ⟨14, 10, [(1, .int 1)], none, 4, 4, none⟩, .post 1 .plain none [], .post 1 .boolean none []])).map
       (fun b => (b.s.log.map showObs, (regGet b.s.reg 1).map (·.key)))) =
     some (["c11.1.-", "c12.1.-", "c13.1.-", "c14.1.1:1", "c21.1.-", "c12.1.-", "c22.1.-"], [21, 12, 22]) := by decide
+
+/-- blocking, an exception and a future in one run: handler 11 (priority 5) returns `{"_min_priority": {all: 0, f1: 4}}`,
+so 12 (facility f1, priority 3) is skipped while 13 (facility f1, priority 4) and 14 (no facility) are called with the
+limit in their kwargs; event 2's handler raises: event 3, which was waiting behind it, is never dispatched and the
+callback of event 2 never runs, the callback of event 1 stays queued; the wait handler 15 resolves future 7 once. -/
+def exProgs3 : Nat → Prog
+  | 1 => ⟨[], .block [(0, 0), (1, 4)]⟩
+  | 2 => ⟨[.raise], .none⟩
+  | 7 => ⟨[.removeKey 1 15, .resolve 7], .none⟩
+  | _ => ⟨[], .none⟩
+
+example : ((Bus.soon exProgs3 10 (Bus.top { s := {} } [.add 1 ⟨11, 5, [], none, 1, 1, none⟩, .add 1 ⟨12, 3, [], none, 0, 0, some 1⟩,
+      .add 1 ⟨13, 4, [], none, 0, 0, some 1⟩, .add 1 ⟨14, 0, [], none, 0, 0, none⟩, .add 1 ⟨15, 1, [], none, 7, 20015, none⟩,
+      .add 2 ⟨16, 0, [], none, 2, 2, none⟩, .add 3 ⟨17, 0, [], none, 0, 0, none⟩,
+      .post 1 .plain (some 9) [], .post 2 .plain (some 8) [], .post 3 .plain none []])).map
+      (fun b => (b.s.log.map showObs, b.s.mlog.map (fun p => showSObs p.2), b.queue.length, b.s.cbq.map (·.1)))) =
+    some (["c11.1.-", "c13.1.100:{0:0;1:4}", "c15.1.100:{0:0;1:4}", "c14.1.100:{0:0;1:4}", "c16.2.-"], ["f7", "x"], 0, [9]) := by
+  decide
 
 end MpfVerif.C01
